@@ -8,7 +8,7 @@ from contracts import roms_forcing as F
 from contracts import timekeeper as K
 
 UNITS = [K.TKInit(True), K.TKInit(False), K.TKUpdate(), K.TKStep2Time(), K.TKTime2Step(), K.TKStep2NcTime("s"), K.TKNcTime("s"),
-         F.ForcingInit(), F.Velocity(), F.ForceParticles(), F.Update("bracket"), O.OutputInitRecords(False), O.OutputUpdate(), R.ReleaseUpdate(), RI.ReleaserInit(True), RC.Discretize(), RC.ReleaserInitContinuous(True)]
+         F.ForcingInit(), F.Velocity(), F.ForceParticles(), F.Update("bracket"), O.OutputInitRecords(False), O.OutputUpdate(), R.ReleaseUpdate(), RI.ReleaserInit(True), RI.RELEASE_ANY_ORDER, RC.Discretize(), RC.ReleaserInitContinuous(True)]
 LEMMAS = [L.MirrorClock(), L.NoDirectionDependence()]
 NATIVE = [dict(name="reversed run vs forward run over the mirrored time axis in the sign-flipped flow (real Model)", harness="mirror_bounded", kind="bounded")]
 LEVEL = "proof"
